@@ -16,5 +16,6 @@ From Chess3 Require Export Model.FenStreams.
 From Chess3 Require Export Spec.FenSpec.
 From Chess3 Require Export Model.AttacksStream.
 From Chess3 Require Export Model.SeeStreams.
+From Chess3 Require Export Spec.SearchObs Model.Pv Model.IterDeepen.
 
 Extraction Language OCaml.
